@@ -132,6 +132,7 @@ type Scenario struct {
 	MaxSteps  int                       // default 4000
 	NoCache   bool                      // disable the happens-before state cache (self-check)
 	IdleGap   int64                     // ns; quiescent timers further away than this end the run (default 30 min)
+	FirstOnly bool                      // run the default schedule only (very long executions: a smoke run, reported as such)
 	Horizon   int64                     // ns; 0 = none. At quiescence the clock is not advanced beyond this (polling loops never go quiet)
 }
 
